@@ -1,0 +1,12 @@
+//go:build verif
+
+package priq
+
+// VerifHold takes the queue's mutex, as a concurrent Push or Pop inside its
+// critical section would, and returns the function releasing it. It lets a
+// schedule-forcing harness keep a call parked at the entry of its critical
+// section.
+func VerifHold(pq *PriQueue) (release func()) {
+	pq.mu.Lock()
+	return pq.mu.Unlock
+}
